@@ -89,10 +89,11 @@ def m_apply(cols, method, limit):
 
 def build(case):
     import pandas as pd
-    cols = [[NAN if v is None else float(v) for v in c] for c in case['cols']]
+    cols = [[NAN if v is None else (float('inf') if v == 'inf' else -float('inf') if v == '-inf' else float(v)) for v in c] for c in case['cols']]
     n = len(cols[0])
     kind = case['kind']
-    idx = pd.DatetimeIndex([T0 + datetime.timedelta(days=i) for i in range(n)])
+    days = case.get('days') or list(range(n))        # may hold repeated labels
+    idx = pd.DatetimeIndex([T0 + datetime.timedelta(days=i) for i in days])
     if kind == 'series':
         return pd.Series(cols[0], index=idx, dtype=float), cols
     if kind == 'arr1':
@@ -143,6 +144,8 @@ def run_case(case, ctx):
         ok = st == 'ok' and type(res) is type(x)
         if ok:
             got, pos = values_of(res)
+            if case.get('days') and pos is not None:
+                pos = keep if pos == [case['days'][i] for i in keep] else pos
             ok = len(got) == len(exp) and all(veq(g, e) for g, e in zip(got, exp)) and (pos is None or pos == keep)
             if ok and isinstance(x, pd.DataFrame):
                 ok = list(res.columns) == list(x.columns)
@@ -157,6 +160,9 @@ def run_case(case, ctx):
         got = pos = None
         if ok:
             got, pos = values_of(res)
+            if case.get('days') and pos is not None:
+                pos_ok = pos == [case['days'][i] for i in keep]
+                pos = keep if pos_ok else pos
             ok = len(got) == len(exp) and all(veq(g, e) for g, e in zip(got, exp)) and (pos is None or pos == keep)
             if ok and isinstance(x, pd.DataFrame):
                 ok = list(res.columns) == list(x.columns)
@@ -187,7 +193,7 @@ def run_case(case, ctx):
 
 
 SINGLE = ['ffill', 'bfill', 0.0, 7.5, 'nona', 'fnna', 'ffill_na', 'ffill_0']
-LISTS = [['ffill', 'ffill'], ['bfill', 'bfill'], ['ffill', 'bfill', 'bfill'], ['ffill', 'ffill', 'ffill'], ['ffill', 'bfill'], ['bfill', 'ffill'], ['ffill', 0.0], ['fnna', 'ffill'], ['nona'], ['ffill', 'nona'], ['ffill_na', 'bfill'], ['bfill', 0.0], ['fnna', 'bfill', 'ffill']]
+LISTS = [['fnna', 'ffill_na'], ['nona', 'ffill_0'], ['fnna', 'ffill_0'], ['nona', 'ffill_na'], ['ffill', 'ffill'], ['bfill', 'bfill'], ['ffill', 'bfill', 'bfill'], ['ffill', 'ffill', 'ffill'], ['ffill', 'bfill'], ['bfill', 'ffill'], ['ffill', 0.0], ['fnna', 'ffill'], ['nona'], ['ffill', 'nona'], ['ffill_na', 'bfill'], ['bfill', 0.0], ['fnna', 'bfill', 'ffill']]
 
 
 def mask_cols(mask, base=1):
@@ -212,7 +218,15 @@ def gen_random(rng):
         if rng.random() < 0.15 and k > 1:
             cols[0] = [None] * n
     if rng.random() < 0.2:
-        return {'kind': kind, 'cols': cols, 'fn': 'nona', 'edge': rng.choice([None, None, 1, -1]), 'method': None, 'limit': None}
+        c_ = {'kind': kind, 'cols': cols, 'fn': 'nona', 'edge': rng.choice([None, None, 1, -1]), 'method': None, 'limit': None}
+        if kind in ('series', 'frame') and c_['edge'] is None and rng.random() < 0.3 and len(cols[0]) >= 2:
+            days, dcur = [], 0
+            for i in range(len(cols[0])):
+                days.append(dcur)
+                if rng.random() < 0.6:
+                    dcur += 1
+            c_['days'] = days
+        return c_
     if rng.random() < 0.3:
         method = rng.choice(LISTS)
         if kind in ('frame', 'arr2') and any(m in ('ffill_na', 'ffill_0') for m in method):
@@ -222,7 +236,23 @@ def gen_random(rng):
     limit = rng.choice([None, None, 1, 2, 3])
     if any(isinstance(m, float) for m in (method if isinstance(method, list) else [method])):
         limit = None
-    return {'kind': kind, 'cols': cols, 'method': method, 'limit': limit, 'positional': rng.random() < 0.2}
+    case = {'kind': kind, 'cols': cols, 'method': method, 'limit': limit, 'positional': rng.random() < 0.2}
+    if rng.random() < 0.2:
+        # +-inf are ordinary non-NaN cells: never filled, never changed
+        for c in cols:
+            for i in range(len(c)):
+                if c[i] is not None and rng.random() < 0.25:
+                    c[i] = rng.choice(['inf', '-inf'])
+    ms = method if isinstance(method, list) else [method]
+    if kind in ('series', 'frame') and rng.random() < 0.2 and len(cols[0]) >= 2 and not any(m in ('fnna', 'ffill_na', 'ffill_0') for m in ms):
+        # repeated index labels (two prints for one day): rows are still rows
+        days, dcur = [], 0
+        for i in range(len(cols[0])):
+            days.append(dcur)
+            if rng.random() < 0.6:
+                dcur += 1
+        case['days'] = days
+    return case
 
 
 def plan(tier, seed, n):
